@@ -344,7 +344,10 @@ class Unit:
                 if ordn is not None:
                     hits = hits[int(ordn):int(ordn) + 1]
                 if len(hits) != 1:
-                    raise GenError('anchor lost: %s `%s` matches %d times in %s :: %s' % (c[0], old, len(hits), rel, selector))
+                    # the expression to rewrite is gone (or ambiguous): the directive is dropped and recorded; the verifier sees the
+                    # code as it is now (it either still verifies, fails an obligation, or is rejected as unsupported -> exit 2)
+                    self.hints_dropped.append('%s :: %s: %s anchor `%s` matches %d times' % (rel, selector, c[0], old, len(hits)))
+                    continue
                 h = hits[0]
                 edits.append(Edit(s_off + h.start(), s_off + h.end(), new, ('spec', tplpath, c[2]), prio=5))
                 entry = {'fn': '%s :: %s' % (rel, selector), 'old': old, 'new': new, 'reason': reason.strip(), 'kind': c[0]}
